@@ -274,12 +274,28 @@ def LeafS.vars : LeafS → List Nat
   | .set e => e.vars
   | _ => []
 
+/-- the sources of a temporary with variable `v` replaced by `t` -/
+def Src.redirect (v t : Nat) : Src → Src
+  | .var w => if w = v then .var t else .var w
+  | .lit x => .lit x
+
+def ValS.redirect (v t : Nat) : ValS → ValS
+  | .lit x => .lit x
+  | .list l => .list (l.map (Src.redirect v t))
+  | .array l => .array (l.map (Src.redirect v t))
+  | .map m => .map (m.map (fun q => (q.1, q.2.redirect v t)))
+
+/-- typed assignment, *below the root* of `v`, of a temporary container that holds copies of `v` itself: the caller
+    builds the temporary before the accessor chain runs (`List<Variant> t; t.append(v); v.toList().front() = t;`) -/
+def selfTemp (v : Nat) (path : List Step) (lf : LeafS) : Bool :=
+  !path.isEmpty && (match lf with | .set e => e.vars.contains v | _ => false)
+
 /-- Precondition of `mut v path leaf` (the caller's side of the contract, see the finding
     "self-append" in the area's notes): a Variant reached through a mutable accessor of `v`
-    is not given `v` itself as the source.  `v = v` and `v = <temporary built from v>` on the
-    variable itself are fine. -/
+    is not given `v` itself as the source.  `v = v` on the variable itself and the typed assignment of a
+    temporary built from `v` (at any path: the temporary holds copies made before the accessor chain runs) are fine. -/
 def mutOk (v : Nat) (path : List Step) (lf : LeafS) : Bool :=
-  (path.isEmpty && (match lf with | .assign _ => true | .set _ => true | _ => false)) || !(lf.vars.contains v)
+  (match lf with | .set _ => true | .assign _ => path.isEmpty | _ => false) || !(lf.vars.contains v)
 
 inductive Op where
   | new (v : Nat) (e : ValS)
